@@ -1,0 +1,43 @@
+//go:build verif
+
+package otp
+
+import "sync"
+
+// This file is compiled only with -tags verif. It adds thin exported wrappers
+// around unexported stages so that an external harness can enumerate them
+// exhaustively, and exposes the two scratch-buffer pools to an adversary.
+// It changes no behaviour of the package.
+
+// VerifTruncate exposes truncate (dynamic truncation + modulo).
+func VerifTruncate(sum []byte, mod uint64) uint32 { return truncate(sum, mod) }
+
+// VerifMod10 returns the modulus table entry for d digits and whether d indexes the table.
+func VerifMod10(d int) (uint64, bool) {
+	if d < 0 || d >= len(mod10) {
+		return 0, false
+	}
+	return mod10[d], true
+}
+
+// VerifShortDigit exposes shortDigit (codes of up to 8 digits).
+func VerifShortDigit(v uint32, digits int) string { return shortDigit(v, digits) }
+
+// VerifLongDigit exposes longDigit (codes of more than 8 digits).
+func VerifLongDigit(v uint32, digits int) string { return longDigit(v, digits) }
+
+// VerifFormatDecimal exposes formatDecimal (OCRA rendering).
+func VerifFormatDecimal(v uint32, digits int) string { return formatDecimal(v, digits) }
+
+// VerifPadBytes exposes padBytes.
+func VerifPadBytes(in []byte, n int) []byte { return padBytes(in, n) }
+
+// VerifPools returns the RFC 4226 counter-buffer pool and the RFC 6287 message-buffer pool.
+func VerifPools() (rfc4226 *sync.Pool, rfc6287 *sync.Pool) {
+	return &rfc4226BufPool, &rfc6287BufPool
+}
+
+// VerifDeriveRFC4226 exposes the internal derivation on raw key bytes.
+func VerifDeriveRFC4226(secret []byte, counter uint64, digits int, algo Algorithm) (string, error) {
+	return deriveRFC4226(secret, counter, digits, algo)
+}
